@@ -141,7 +141,7 @@ func genPopulation(r *Rng, c *sessCase, v5mask int, wills bool, timed bool) {
 		case x < 47:
 			c.Ops = append(c.Ops, sessOp{Op: "pub", T: r.Intn(2)})
 		case x < 55:
-			c.Ops = append(c.Ops, sessOp{Op: []string{"retain", "retain", "unretain"}[r.Intn(3)], T: r.Intn(2), V5: r.Chance(50)})
+			c.Ops = append(c.Ops, sessOp{Op: []string{"retain", "retain", "unretain"}[r.Intn(3)], T: r.Intn(3), V5: r.Chance(50)})
 		case connected[id] && x < 70:
 			op := sessOp{Op: "disc", ID: id, Expiry: -1, WithWill: r.Chance(30)}
 			if r.Chance(25) && canSetExpiry[id] {
@@ -163,6 +163,14 @@ func genPopulation(r *Rng, c *sessCase, v5mask int, wills bool, timed bool) {
 func init() {
 	// C20: shutdown over every kind of population
 	props["C20"] = &sessProp{id: "C20", gen: func(r *Rng, i int, tier string) *sessCase {
+		if i%30 == 29 {
+			// the whole server: listeners, established connections and connections still in their handshake
+			lc := &lisCase{}
+			for k := 0; k < 2+r.Intn(4); k++ {
+				lc.Conns = append(lc.Conns, r.Intn(4))
+			}
+			return &sessCase{Listener: lc}
+		}
 		c := &sessCase{Preempt: true}
 		v5mask := r.Intn(4)
 		genPopulation(r, c, v5mask, true, i%4 == 3)
@@ -190,7 +198,7 @@ func init() {
 			}
 			switch r.Intn(4) {
 			case 3:
-				c.Ops = append(c.Ops, sessOp{Op: []string{"retain", "unretain", "unretain"}[r.Intn(3)], T: r.Intn(2), V5: r.Chance(50)})
+				c.Ops = append(c.Ops, sessOp{Op: []string{"retain", "unretain", "unretain"}[r.Intn(3)], T: r.Intn(3), V5: r.Chance(50)})
 			case 0:
 				c.Ops = append(c.Ops, sessOp{Op: "pub", T: r.Intn(2)})
 			case 1:
@@ -198,7 +206,7 @@ func init() {
 				op.Clean = r.Chance(15)
 				c.Ops = append(c.Ops, op)
 				if r.Chance(60) {
-					c.Ops = append(c.Ops, sessOp{Op: "sub", ID: op.ID, T: r.Intn(2)})
+					c.Ops = append(c.Ops, sessOp{Op: "sub", ID: op.ID, T: r.Intn(3)})
 				} else {
 					// its restored subscriptions (No Local included) apply to its own publishes
 					c.Ops = append(c.Ops, sessOp{Op: "selfpub", ID: op.ID, T: 0}, sessOp{Op: "selfpub", ID: op.ID, T: 1})
